@@ -1,8 +1,9 @@
 //! slicec-bounded <check>   -- prints one JSON object per counterexample (at most 5) and a summary.
-//! checks: plugin (C19)  preproc (C06)  decode (C11)  totals (C07)  visitor (C20)  fileset (C17)  lexical (C01)  snippet (C09)  lints (C13)  spans (C09)  request (C08)  comments (C16)
+//! checks: plugin (C19)  preproc (C06)  decode (C11)  totals (C07)  visitor (C20)  fileset (C17)  lexical (C01)  snippet (C09)  lints (C13)  spans (C09)  request (C08)  comments (C16)  fidelity (C02)
 use std::collections::{BTreeMap, HashMap, HashSet};
 
 mod oracle_comments;
+mod oracle_fidelity;
 mod oracle_fileset;
 mod oracle_lexical;
 mod oracle_lints;
@@ -109,9 +110,10 @@ fn main() {
         "spans" => oracle_spans::run(),
         "request" => oracle_request::run(),
         "comments" => oracle_comments::run(),
+        "fidelity" => oracle_fidelity::run(),
         "one" => oracle_lexical::one(&std::env::args().nth(2).unwrap_or_default()),
         _ => {
-            eprintln!("usage: slicec-bounded plugin|preproc|decode|totals|visitor|fileset|lexical|snippet|lints|spans|request|comments");
+            eprintln!("usage: slicec-bounded plugin|preproc|decode|totals|visitor|fileset|lexical|snippet|lints|spans|request|comments|fidelity");
             2
         }
     };
